@@ -36,9 +36,14 @@ def do_import(src):
             d = os.path.join(out, k)
             if not os.path.exists(os.path.join(d, "patch.diff")):
                 continue
-            dst = os.path.join(SEEDED, "%s-%s" % (pid, k))
-            if os.path.exists(dst):
+            # skip a change that was imported before (same patch text); otherwise take the next free number
+            patch_text = open(os.path.join(d, "patch.diff"), encoding="utf-8", errors="replace").read()
+            existing = [n for n in os.listdir(SEEDED) if n.startswith(pid + "-")]
+            if any(open(os.path.join(SEEDED, n, "patch.diff"), encoding="utf-8", errors="replace").read()
+                   == patch_text for n in existing if os.path.exists(os.path.join(SEEDED, n, "patch.diff"))):
                 continue
+            nxt = 1 + max([int(n.split("-")[1]) for n in existing] or [0])
+            dst = os.path.join(SEEDED, "%s-%d" % (pid, nxt))
             os.makedirs(dst)
             for name in ("patch.diff", "demo.py", "meta.json"):
                 if os.path.exists(os.path.join(d, name)):
